@@ -252,6 +252,10 @@ def accessLine : List String → String
     match ofHex h with
     | some b => toHex (b.map toLower)
     | none => "bad-op"
+  | ["utf8", h] =>
+    match ofHex h with
+    | some b => if validUtf8 b then "1" else "0"
+    | none => "bad-op"
   | ["pton", h] =>
     match ofHex h with
     | some b => addrStr (ptonAny b)
